@@ -27,6 +27,15 @@ type c18Case struct {
 	Words  []string `json:"words,omitempty"`  // header value = words joined as given in Seps
 	Seps   []string `json:"seps,omitempty"`
 	Addrs  int      `json:"addrs,omitempty"` // number of To addresses (header kind "to")
+	// NVals > 0: the header is set with NVals separate values of VLen characters each (one multi-valued call);
+	// with Addrs > 0, VLen > 0 makes the addresses short ones whose local part has VLen characters
+	NVals int `json:"nvals,omitempty"`
+	VLen  int `json:"vlen,omitempty"`
+}
+
+// c18ShortAddr is the i-th short address with a local part of l characters.
+func c18ShortAddr(i, l int) string {
+	return fmt.Sprintf("<%s@%c%d.ex>", repeatTo("abcdefghijklmnopqrstuvwxyz"[i%26:], l), 'a'+rune(i%26), i)
 }
 
 // c18Text builds deterministic text content of length n that exercises the QP encoder.
@@ -213,12 +222,24 @@ func c18Exec(r *vf.Run, k c18Case) []finding {
 		hname = "To"
 		var as []string
 		for i := 0; i < k.Addrs; i++ {
+			if k.VLen > 0 {
+				as = append(as, c18ShortAddr(i, k.VLen))
+				continue
+			}
 			as = append(as, fmt.Sprintf(`"Recipient number %d with a long display name" <recipient-%d-with-long-local-part@subdomain%d.rcp.example>`, i, i, i))
 		}
 		if err := m.To(as...); err != nil {
 			r.HarnessError("C18 To: %v", err)
 			return nil
 		}
+	} else if k.NVals > 0 {
+		_ = m.To("rcpt@rcp.example")
+		var vals []string
+		for i := 0; i < k.NVals; i++ {
+			vals = append(vals, repeatTo("abcdefghijklmnopqrstuvwxyz"[i%26:], k.VLen))
+		}
+		value = strings.Join(vals, ", ")
+		m.SetGenHeader(mail.Header(hname), vals...)
 	} else {
 		_ = m.To("rcpt@rcp.example")
 		var b strings.Builder
@@ -284,6 +305,12 @@ func c18Exec(r *vf.Run, k c18Case) []finding {
 	} else {
 		got := e.First("To")
 		for i := 0; i < k.Addrs; i++ {
+			if k.VLen > 0 {
+				if !strings.Contains(got, c18ShortAddr(i, k.VLen)) {
+					add("header/address-lost", "address %d missing from unfolded To: %q", i, got)
+				}
+				continue
+			}
 			if !strings.Contains(got, fmt.Sprintf("<recipient-%d-with-long-local-part@subdomain%d.rcp.example>", i, i)) {
 				add("header/address-lost", "address %d missing from unfolded To: %q", i, got)
 			}
@@ -361,6 +388,17 @@ func c18Cases(thorough bool) []c18Case {
 	for n := 1; n <= 6; n++ {
 		cs = append(cs, c18Case{Kind: "header", Addrs: n})
 	}
+	// many short values in one header: every count 1..60 × every value length 1..12, and lists of short addresses
+	for n := 1; n <= 60; n++ {
+		for l := 1; l <= 12; l++ {
+			for _, hn := range names[:3] {
+				cs = append(cs, c18Case{Kind: "header", Header: hn, NVals: n, VLen: l})
+			}
+			if l <= 6 {
+				cs = append(cs, c18Case{Kind: "header", Addrs: n, VLen: l})
+			}
+		}
+	}
 	// bodies: every length, uniform chunk sizes, all cut sets up to 2 (thorough 3) cuts
 	for _, b64 := range []bool{false, true} {
 		maxN := 200
@@ -436,7 +474,7 @@ func init() {
 	vf.Register(&vf.Check{
 		ID: "C18", Title: "generated output obeys Internet-message line discipline",
 		Run: func(r *vf.Run) {
-			r.SetRule("(a) header folding: generic headers with names of 2/12/33 characters and Subject, values of 2 words with every length pair 0..80 and 3 words over 27 lengths up to 300, with double/leading/trailing blanks, TAB, to-be-encoded words; To lists of 1..6 long addresses; (b) QP text bodies and base64 attachments of every length 0..200, 1000 and 4096, whose producers split their output at every set of <=2 (thorough <=3) cut positions, in uniform chunks of every size, and in all 2^(n-1) splittings of 13 nine-byte blocks; an independent line scanner checks CRLF-only, body lines <=76, header lines <=78 unless unbreakable, unfolded value = value set, decoded body = content; distinct by case tuple")
+			r.SetRule("(a) header folding: generic headers with names of 2/12/33 characters and Subject, values of 2 words with every length pair 0..80 and 3 words over 27 lengths up to 300, with double/leading/trailing blanks, TAB, to-be-encoded words; To lists of 1..6 long addresses; one header set with 1..60 separate values of 1..12 characters each, To lists of 1..60 short addresses; (b) QP text bodies and base64 attachments of every length 0..200, 1000 and 4096, whose producers split their output at every set of <=2 (thorough <=3) cut positions, in uniform chunks of every size, and in all 2^(n-1) splittings of 13 nine-byte blocks; an independent line scanner checks CRLF-only, body lines <=76, header lines <=78 unless unbreakable, unfolded value = value set, decoded body = content; distinct by case tuple")
 			r.Assume("trailing blanks of a header value are not significant", "a header line may exceed 78 characters only if the part after the field name / folding blank contains no blank")
 			cases := c18Cases(r.Thorough)
 			r.Extra("cases", len(cases))
